@@ -17,132 +17,254 @@ LEVEL = "other"
 TRUNCATING = {"trunc", "math.trunc", "int"}
 
 
-def ladder(fn: ast.FunctionDef) -> List[Tuple[str, List[ast.stmt]]]:
-    """(condition text, body) for each arm of the top-level if/elif/else ladder."""
-    out = []
-    for st in fn.body:
-        if isinstance(st, ast.If):
-            cur: Optional[ast.If] = st
-            while cur is not None:
-                out.append((ast.unparse(cur.test), cur.body))
-                if len(cur.orelse) == 1 and isinstance(cur.orelse[0], ast.If):
-                    cur = cur.orelse[0]
-                else:
-                    if cur.orelse:
-                        out.append(("else", cur.orelse))
-                    cur = None
-            break
+def flat_conds(conds) -> List[Tuple[ast.expr, bool]]:
+    """Path conditions as a flat conjunction of literals: `not (a or b)` -> not a, not b; `a and b` -> a, b."""
+    out: List[Tuple[ast.expr, bool]] = []
+
+    def add(t: ast.expr, pol: bool) -> None:
+        t = strip_cast(t)
+        if isinstance(t, ast.UnaryOp) and isinstance(t.op, ast.Not):
+            add(t.operand, not pol)
+        elif isinstance(t, ast.BoolOp) and isinstance(t.op, ast.And) and pol:
+            for v in t.values:
+                add(v, True)
+        elif isinstance(t, ast.BoolOp) and isinstance(t.op, ast.Or) and not pol:
+            for v in t.values:
+                add(v, False)
+        else:
+            out.append((t, pol))
+
+    for t, pol in conds:
+        add(t, pol)
     return out
 
 
-def manual_guard_interval(body: List[ast.stmt], var: str):
-    """A dominating `if not (lo <= var <= hi): raise` in this arm: accepted interval."""
-    for st in body:
-        if isinstance(st, ast.If) and any(isinstance(x, ast.Raise) for x in st.body) and not st.orelse:
-            try:
-                rejected = interval_of(st.test, var)
-            except NotInterval:
-                return None
-            from ..core.absval import _compl
-
-            return _compl(rejected)
+def isinstance_classes(t: ast.expr, var: str) -> Optional[List[str]]:
+    if isinstance(t, ast.Call) and dotted(t.func) == "isinstance" and len(t.args) == 2 and isinstance(strip_cast(t.args[0]), ast.Name) and strip_cast(t.args[0]).id == var:
+        elts = t.args[1].elts if isinstance(t.args[1], ast.Tuple) else [t.args[1]]
+        return [(dotted(e) or "?").split(".")[-1] for e in elts]
     return None
 
 
+def arm_label(ct, cls, fn, conds, var: str) -> Tuple[str, Set[str], Optional[Set[str]]]:
+    """(label, classes the source is known to be, prefixes the source text is known to start with)."""
+    from ..core.consteval import try_const
+
+    pos: Set[str] = set()
+    prefixes: Optional[Set[str]] = None
+    is_none = False
+    for t, pol in flat_conds(conds):
+        k = isinstance_classes(t, var)
+        if k is not None and pol:
+            pos |= set(k)
+        if isinstance(t, ast.Compare) and len(t.ops) == 1 and isinstance(t.ops[0], ast.Is) and pol and ast.unparse(t.left) == var and ast.unparse(t.comparators[0]) == "None":
+            is_none = True
+        if isinstance(t, ast.Compare) and len(t.ops) == 1 and isinstance(t.ops[0], ast.In) and pol and isinstance(strip_cast(t.left), ast.Subscript) and ast.unparse(strip_cast(t.left).value) == var:
+            val = try_const(ct, t.comparators[0], cls, fn)
+            if isinstance(val, (set, frozenset, tuple, list)) and val and all(isinstance(x, str) for x in val):
+                prefixes = set(val)
+        if isinstance(t, ast.Call) and isinstance(t.func, ast.Attribute) and t.func.attr == "startswith" and pol and ast.unparse(t.func.value) == var and t.args:
+            val = try_const(ct, t.args[0], cls, fn)
+            if isinstance(val, str):
+                prefixes = {val}
+            elif isinstance(val, tuple) and all(isinstance(x, str) for x in val):
+                prefixes = set(val)
+    if is_none:
+        lab = "None"
+    elif pos:
+        lab = "|".join(sorted(pos)) + (f" & prefix {sorted(prefixes)}" if prefixes else "")
+    else:
+        lab = "other"
+    return lab, pos, prefixes
+
+
+def converter_body(ct, cls, fn, inner: Optional[ast.AST]) -> Tuple[Optional[str], Optional[ast.expr], Optional[str]]:
+    """(name, return expression, parameter) of the converter handed to the range decorator."""
+    from ..core.model import deref
+
+    if inner is None:
+        return None, None, None
+    inner = strip_cast(inner)
+    nm = dotted(inner)
+    node = deref(ct, inner, cls, fn) if isinstance(inner, (ast.Name, ast.Attribute)) else inner
+    if isinstance(node, ast.Lambda):
+        params = [a.arg for a in node.args.args]
+        return nm, node.body, params[0] if params else None
+    if isinstance(inner, ast.Name) and ct.has(inner.id) and isinstance(ct.top(inner.id), ast.FunctionDef):
+        d = ct.top(inner.id)
+        rets = [r.value for r in ast.walk(d) if isinstance(r, ast.Return) and r.value is not None]
+        params = [a.arg for a in d.args.args]
+        if len(rets) == 1:
+            return nm, rets[0], params[0] if params else None
+    return nm, None, None
+
+
 def check_int_ctor(repo: Repo, run: Run, cname: str) -> int:
+    from ..core.absval import _compl, _inter
+    from ..core.consteval import NotConstant, const_in, try_const
+    from ..core.paths import paths_of
+
     ct = repo.mod("celtypes")
-    fn = class_methods(ct.cls(cname)).get("__new__")
+    cls = ct.cls(cname)
+    fn = class_methods(cls).get("__new__")
     if fn is None:
         raise AnchorMissing(f"celtypes.{cname}.__new__")
     decos = range_decorators(repo)
     want = EXPECTED_RANGE[cname]
     good_decos = {n for n, (ivs, _, _) in decos.items() if ivs is not None and [(int(a), int(b)) for a, b in ivs if a not in (INF, -INF) and b not in (INF, -INF)] == want}
     src_param = fn.args.args[1].arg if len(fn.args.args) > 1 else "source"
-    arms = ladder(fn)
+    lo, hi = want[0]
     n = 0
-    final_calls = [s for s in fn.body if isinstance(s, ast.Return)]
-    # the final statement must apply the converter chosen by the arm
-    final_ok = any("convert(" in ast.unparse(s) for s in final_calls)
-    for cond, body in arms:
-        n += 1
-        label = f"{cname}.__new__[{cond[:60]}]"
-        assigns = [s for s in body if isinstance(s, ast.Assign) and isinstance(s.targets[0], ast.Name)]
-        rets = [s for s in body if isinstance(s, ast.Return)]
-        conv = [strip_cast(s.value) for s in assigns if s.targets[0].id == "convert"]  # type: ignore[union-attr]
-        if conv:
-            c = conv[-1]
-            wrapped = isinstance(c, ast.Call) and dotted(c.func) in good_decos
-            if wrapped:
-                inner = c.args[0] if c.args else None
-                run.ob("C10.R1", label, final_ok, f"{label}: converter `{ast.unparse(c)[:60]}` is range-checked by {dotted(c.func)}", ct.loc(assigns[-1]))
-                # R3: float sources truncate toward zero
-                if "float" in cond or "DoubleType" in cond:
-                    nm = dotted(inner) if inner is not None else None
-                    run.ob("C10.R3", f"{cname}.__new__[double]", nm in TRUNCATING,
-                           f"{cname}(double) converts with `{nm}`; CEL truncates toward zero (trunc / int)", ct.loc(assigns[-1]))
-                if "0x" in cond or "0X" in cond:
-                    txt = ast.unparse(inner) if inner is not None else ""
-                    neg = "-0x" in cond
-                    skip = 3 if neg else 2
-                    ok = f"[{skip}:], 16)" in txt and (txt.count("-int(") == 1 if neg else "-int(" not in txt)
-                    run.ob("C10.R3", f"{cname}.__new__[hex{'-' if neg else ''}]", ok,
-                           f"{cname}({'-' if neg else ''}0x..) parses `{txt[:60]}`: must skip {skip} characters, radix 16" + (", negated" if neg else ""), ct.loc(assigns[-1]))
-                continue
-            # not decorator-wrapped: accept a dominating manual guard whose accepted interval keeps trunc(x) in range
-            acc = manual_guard_interval(body, src_param)
-            lo, hi = want[0]
-            if acc is not None and acc and all(a >= lo and b <= hi for a, b in acc):
-                run.ob("C10.R1", label, True, f"{label}: manual range guard accepts {show_iv(acc)}", ct.loc(assigns[-1]))
-            else:
-                run.ob("C10.R1", label, False,
-                       f"{label}: converter `{ast.unparse(c)[:60]}` bypasses the {cname} range check"
-                       + (f"; the manual guard accepts {show_iv(acc)} which exceeds {show_iv(want)}" if acc else ""), ct.loc(assigns[-1]))
+    seen_labels: Dict[str, int] = {}
+    try:
+        all_paths = paths_of(ct, cls, fn, no_inline=set(decos))
+    except OverflowError:
+        run.inconclusive("C10.R1", f"{cname}.__new__", "too many paths")
+        return 0
+    for p in all_paths:
+        if p.kind != "return" or p.value is None:
             continue
-        if rets:
-            r = strip_cast(rets[-1].value) if rets[-1].value is not None else None
-            txt = ast.unparse(r) if r is not None else ""
-            if isinstance(r, ast.Name) and r.id == src_param and cname in cond:
-                run.ob("C10.R1", label, True, f"{label}: already a {cname}", ct.loc(rets[-1]))
-            elif "is None" in cond and (txt.endswith(", 0)") or "lambda src: 0" in txt):
-                run.ob("C10.R1", label, True, f"{label}: constant zero", ct.loc(rets[-1]))
-            elif "MessageType" in cond:
-                run.ob("C10.R1", label, True, f"{label}: protobuf wrapper value (recorded exemption: the field value is itself a CEL value)", ct.loc(rets[-1]))
-            else:
-                run.ob("C10.R1", label, False, f"{label}: returns `{txt[:60]}` without the {cname} range check", ct.loc(rets[-1]))
+        lab, pos, prefixes = arm_label(ct, cls, fn, p.conds, src_param)
+        k = seen_labels.get(lab, 0)
+        seen_labels[lab] = k + 1
+        label = f"{cname}.__new__[{lab}]" + (f"#{k}" if k else "")
+        site = ct.loc(p.node) if p.node is not None else ct.loc(fn)
+        v = strip_cast(p.value)
+        n += 1
+        # the source itself
+        if isinstance(v, ast.Name) and v.id == src_param:
+            run.ob("C10.R1", label, cname in pos, f"{label}: returns the source unchanged" + (f", which already is a {cname}" if cname in pos else f" although it is not known to be a {cname}"), site)
+            continue
+        built = None
+        if isinstance(v, ast.Call) and isinstance(v.func, ast.Attribute) and v.func.attr == "__new__" and len(v.args) >= 2:
+            built = strip_cast(v.args[1])
+        elif isinstance(v, ast.Call) and dotted(v.func) in (cname, "cls") and v.args:
+            # delegates to the constructor itself (e.g. -IntType(text)): judged through the recursive arm
+            run.inconclusive("C10.R1", label, f"delegates to `{ast.unparse(v)[:60]}`")
+            continue
+        if built is None:
+            run.ob("C10.R1", label, False, f"{label}: returns `{ast.unparse(v)[:60]}` without the {cname} range check", site)
+            continue
+        cval = try_const(ct, built, cls, fn, default=NotImplemented)
+        if cval is not NotImplemented and isinstance(cval, (int, float)):
+            run.ob("C10.R1", label, lo <= cval <= hi, f"{label}: constant {cval}", site)
+            continue
+        inner = None
+        checked = False
+        if isinstance(built, ast.Call):
+            f = strip_cast(built.func)
+            if isinstance(f, ast.Call) and (dotted(f.func) or "").split(".")[-1] in good_decos:
+                checked, inner = True, (f.args[0] if f.args else None)
+            elif isinstance(f, ast.Name) and ct.has(f.id) and isinstance(ct.top(f.id), ast.FunctionDef) and any((dotted(d) or "").split(".")[-1] in good_decos for d in ct.top(f.id).decorator_list):
+                checked, inner = True, f
+        if checked:
+            run.ob("C10.R1", label, True, f"{label}: `{ast.unparse(built)[:70]}` is range-checked by the {cname} decorator", site)
+            nm, body, param = converter_body(ct, cls, fn, inner)
+            if pos & {"float", "DoubleType"}:
+                callee = None
+                if body is not None and isinstance(strip_cast(body), ast.Call):
+                    callee = dotted(strip_cast(body).func)
+                okd = nm in TRUNCATING or callee in TRUNCATING
+                run.ob("C10.R3", f"{cname}.__new__[double]", okd,
+                       f"{cname}(double) converts with `{nm or (ast.unparse(body)[:40] if body is not None else '?')}`; CEL truncates toward zero (trunc / int)", site)
+            if prefixes:
+                neg = all(x.startswith("-") for x in prefixes)
+                klen = {len(x) for x in prefixes}
+                if body is None or len(klen) != 1:
+                    run.inconclusive("C10.R3", f"{cname}.__new__[hex{'-' if neg else ''}]", "the converter of the hexadecimal arm could not be read")
+                else:
+                    skip = klen.pop()
+                    ints = [c for c in ast.walk(body) if isinstance(c, ast.Call) and dotted(c.func) == "int" and len(c.args) == 2]
+                    ok = False
+                    detail = ast.unparse(body)[:60]
+                    if len(ints) == 1:
+                        a0, a1 = strip_cast(ints[0].args[0]), ints[0].args[1]
+                        radix = try_const(ct, a1, cls, fn)
+                        start = None
+                        if isinstance(a0, ast.Subscript) and isinstance(a0.slice, ast.Slice) and a0.slice.upper is None and a0.slice.step is None and ast.unparse(a0.value) == param:
+                            start = try_const(ct, a0.slice.lower, cls, fn) if a0.slice.lower is not None else 0
+                        negs = sum(1 for u in ast.walk(body) if isinstance(u, ast.UnaryOp) and isinstance(u.op, ast.USub))
+                        ok = radix == 16 and start == skip and negs == (1 if neg else 0)
+                    run.ob("C10.R3", f"{cname}.__new__[hex{'-' if neg else ''}]", ok,
+                           f"{cname}({'-' if neg else ''}0x..) parses `{detail}`: must skip {skip} characters, radix 16" + (", negated" if neg else ""), site)
+            continue
+        # not decorator-wrapped: a manual guard on the path must keep the source inside the range
+        acc = [(-INF, INF)]
+        guarded = False
+        for t, pol in flat_conds(p.conds):
+            try:
+                iv = interval_of(t, src_param, cev=lambda e: const_in(ct, e, cls, fn))
+            except (NotInterval, NotConstant, ValueError):
+                continue
+            guarded = True
+            acc = _inter(acc, iv if pol else _compl(iv))
+        if guarded and acc and all(a >= lo and b <= hi for a, b in acc):
+            run.ob("C10.R1", label, True, f"{label}: manual range guard accepts {show_iv(acc)}", site)
+        elif "MessageType" in pos:
+            run.ob("C10.R1", label, True, f"{label}: protobuf wrapper value (recorded exemption: the field value is itself a CEL value)", site)
+        else:
+            run.ob("C10.R1", label, False,
+                   f"{label}: `{ast.unparse(built)[:60]}` bypasses the {cname} range check"
+                   + (f"; the manual guard accepts {show_iv(acc)} which exceeds {show_iv(want)}" if guarded else ""), site)
     return n
 
 
+def bounds_guard(t: ast.expr, pol: bool, cev) -> Optional[Tuple[float, float, str]]:
+    """`lo <= E <= hi` holding on the path (directly, or as the negation of `E < lo or E > hi`): (lo, hi, text of E)."""
+    t = strip_cast(t)
+    if isinstance(t, ast.Compare) and len(t.ops) == 2 and pol and all(isinstance(o, (ast.LtE, ast.Lt)) for o in t.ops):
+        try:
+            lo, hi = cev(t.left), cev(t.comparators[1])
+        except Exception:  # noqa: BLE001
+            return None
+        if isinstance(lo, (int, float)) and isinstance(hi, (int, float)):
+            return lo, hi, ast.unparse(t.comparators[0])
+    return None
+
+
 def check_duration(repo: Repo, run: Run) -> None:
+    from ..core.consteval import ConstEval, NotConstant, const_in
+    from ..core.paths import paths_of
+
     ct = repo.mod("celtypes")
     cls = ct.cls("DurationType")
     fn = class_methods(cls).get("__new__")
     if fn is None:
         raise AnchorMissing("DurationType.__new__")
     consts = {}
-    for n in cls.body:
-        if isinstance(n, ast.Assign) and isinstance(n.targets[0], ast.Name) and n.targets[0].id in ("MaxSeconds", "MinSeconds"):
-            consts[n.targets[0].id] = fold(n.value)
+    for nm in ("MaxSeconds", "MinSeconds"):
+        try:
+            consts[nm] = ConstEval(ct, cls).class_attr(cls, nm)
+        except NotConstant:
+            pass
     run.ob("C10.R4", "DurationType.bounds", consts.get("MaxSeconds") == 315576000000 and consts.get("MinSeconds") == -315576000000,
            f"DurationType range constants {consts}; CEL: +-315,576,000,000 s", ct.loc(cls))
     n = 0
-    for cond, body in ladder(fn):
-        rets = [s for s in ast.walk(ast.Module(body=body, type_ignores=[])) if isinstance(s, ast.Return)]
-        for r in rets:
-            if r.value is None or "super().__new__" not in ast.unparse(r.value):
-                continue
-            n += 1
-            guarded = False
-            for st in body:
-                if st.lineno >= r.lineno:
-                    break
-                if isinstance(st, ast.If) and any(isinstance(x, ast.Raise) for x in st.body):
-                    t = ast.unparse(st.test)
-                    if "MinSeconds" in t and "MaxSeconds" in t and t.startswith("not"):
-                        c = st.test.operand if isinstance(st.test, ast.UnaryOp) else None  # type: ignore[attr-defined]
-                        if isinstance(c, ast.Compare) and all(isinstance(o, ast.LtE) for o in c.ops) and len(c.ops) == 2:
-                            guarded = "MinSeconds" in ast.unparse(c.left) and "MaxSeconds" in ast.unparse(c.comparators[1])
-            run.ob("C10.R4", f"DurationType.__new__[{cond[:40]}]", guarded,
-                   f"DurationType.__new__ arm `{cond[:40]}`: construction " + ("is dominated by the MinSeconds..MaxSeconds test" if guarded else "is not range-checked"), ct.loc(r))
+    src_param = fn.args.args[1].arg if len(fn.args.args) > 1 else "seconds"
+    seen: Dict[str, int] = {}
+    try:
+        all_paths = paths_of(ct, cls, fn)
+    except OverflowError:
+        run.inconclusive("C10.R4", "DurationType.__new__", "too many paths")
+        all_paths = []
+    verdicts: Dict[str, List[Tuple[bool, str, str]]] = {}
+    for p in all_paths:
+        if p.kind != "return" or p.value is None or "__new__" not in ast.unparse(p.value):
+            continue
+        lab, pos, _ = arm_label(ct, cls, fn, p.conds, src_param)
+        guards = []
+        for t, pol in flat_conds(p.conds):
+            g = bounds_guard(t, pol, lambda e: const_in(ct, e, cls, fn))
+            if g is not None:
+                guards.append(g)
+        ok = any(lo >= -315576000000 and hi <= 315576000000 for lo, hi, _e in guards)
+        verdicts.setdefault(lab, []).append((ok, ast.unparse(p.value)[:60], ct.loc(p.node) if p.node is not None else ct.loc(fn)))
+    for lab, vs in sorted(verdicts.items()):
+        n += 1
+        bad = [v for v in vs if not v[0]]
+        run.ob("C10.R4", f"DurationType.__new__[{lab}]", not bad,
+               f"DurationType.__new__ arm `{lab}`: " + (f"every constructing path ({len(vs)}) passes the MinSeconds..MaxSeconds test" if not bad else f"`{bad[0][1]}` is constructed on a path without a range test"),
+               (bad or vs)[0][2])
     run.floor("C10.R4", n, 3)
 
 
